@@ -321,7 +321,7 @@ func main() {
 			break // (neq-empty-list is fixed in /repo b6731b9: back in the main stream)
 		}
 		if sg := sigOf(in); sg != "" {
-			out.Count("shape_of_fixed_finding", sg) // fixed in /repo b0cce87: back in the main stream
+			out.Count("shape_of_fixed_finding", sg) // fixed in /repo b0cce87 / b6731b9 / 70948e8: back in the main stream
 		}
 		in.NoExec = !g.Exec()
 		add(kind, in, TwinOf(in, r.Fork()))
